@@ -249,7 +249,8 @@ def register(PROPS, COMPONENTS):
     PROPS["C07"] = dict(
         lean_files=["ConcVerif/Props/C07.lean", "ConcVerif/Props/C07_lr.lean", "ConcVerif/Props/C07_tripwire.lean",
                     "ConcVerif/Props/C07_deferred.lean", "ConcVerif/Props/C07_trigger.lean", "ConcVerif/Props/C07_rcu.lean",
-                    "ConcVerif/Props/C07_cow.lean", "ConcVerif/Props/C07_soh.lean", "ConcVerif/Props/C07_deferred_obj.lean"],
+                    "ConcVerif/Props/C07_cow.lean", "ConcVerif/Props/C07_soh.lean", "ConcVerif/Props/C07_deferred_obj.lean",
+                    "ConcVerif/Props/C07_dobj.lean"],
         components=names, stage="B", pre=selftest_hb,
         level_text="Lean 4 theorems (kernel-checked; any number of threads, locations and events) over a generic event model of "
                    "mutex / shared-mutex / condition-variable / atomic (with the memory order written in the source) / plain / "
@@ -332,11 +333,14 @@ def register(PROPS, COMPONENTS):
                  "object under the shared mutex m: writes exclusive, reads locked, every conflicting pair ordered, the whole "
                  "mapped trace race free for arbitrary flag orders, C07_deferred_obj_*), SearchableObjectHolder (both maps under "
                  "mapLock; the destructor's unlocked accesses after its final release are ordered after every earlier access "
-                 "through its own last critical section, C07_soh_*), TriggerVariable (store -> load edge of both flags and "
+                 "through its own last critical section, C07_soh_*), DelayedObjects (the four maps under promiseLock, the destructor's "
+                 "late accesses ordered through its own acquisition, every set_value under the lock, C07_dobj_*; the publication "
+                 "set_value -> future::get with promise/future trusted as a release/acquire pair is C07_dobj_publication_partial: the "
+                 "model enables the consumer's `got` from the setter's lock acquisition, not from its set_value event), TriggerVariable (store -> load edge of both flags and "
                  "publication through trigger()/wait(), C07_trigger_*; the model has no client-data events, so the statement is "
                  "about the positions before the store / after the load)",
                  "covered through the checker on OBSERVED traces only (raceFree + its soundness, every run): "
-                 "DelayedDestructor/DelayedObjects, the read->write half of "
+                 "DelayedDestructor, the read->write half of "
                  "the TripWire client data",
                  "cow_guarded: C07_cow_destroy_after_snapshot is relative to the control-block edges (the destruction of a "
                  "snapshot handle happens-before the destruction of the managed object by the last owner: libstdc++'s use-count "
